@@ -8,20 +8,29 @@ Import ListNotations.
 
 (* which call goes where is a function of the input alone: an MCP route is exactly a str tool_name
    with the mcp__ prefix (Claude / Gemini modes) ... *)
-Theorem C14_route_mcp : forall inp tn,
-  route_of false inp = Ok (RMcp tn) ->
+Theorem C14_route_mcp : forall cursor inp tn,
+  route_of cursor inp = Ok (RMcp tn) ->
   py_get inp $"tool_name" (JStr []) = Ok (JStr tn) /\ prefixb $"mcp__" tn = true.
 Proof. exact route_mcp_inv. Qed.
 Print Assumptions C14_route_mcp.
 
-(* ... and a shell route exactly a tool_name of SHELL_TOOL_NAMES, none of which has that prefix *)
+(* ... and a shell route through tool_name exactly a tool_name of SHELL_TOOL_NAMES, none of which has that prefix *)
 Theorem C14_route_shell : forall inp c,
-  route_of false inp = Ok (RShell c) ->
+  tool_route inp = Ok (RShell c) ->
   exists tn ti, py_get inp $"tool_name" (JStr []) = Ok (JStr tn) /\ In tn SHELL_TOOL_NAMES /\
                 prefixb $"mcp__" tn = false /\
                 py_get inp $"tool_input" (JObj []) = Ok ti /\ py_get ti $"command" (JStr []) = Ok c.
-Proof. exact route_shell_inv. Qed.
+Proof. exact tool_route_shell_inv. Qed.
 Print Assumptions C14_route_shell.
+
+(* every shell route is that, or the top-level command of an input without tool_name (Cursor's shape) *)
+Theorem C14_route_shell_cases : forall cursor inp c,
+  route_of cursor inp = Ok (RShell c) ->
+  (py_in $"tool_name" inp = Ok false /\ py_get inp $"command" (JStr []) = Ok c) \/
+  (py_in $"tool_name" inp = Ok true /\ tool_route inp = Ok (RShell c)) \/
+  (cursor = false /\ py_in $"tool_name" inp = Ok false /\ py_in $"command" inp = Ok false /\ tool_route inp = Ok (RShell c)).
+Proof. exact route_shell_inv. Qed.
+Print Assumptions C14_route_shell_cases.
 
 Section Worlds.
   Variables S G : Type.
